@@ -1,14 +1,28 @@
-(** C39 — job lifecycle protocol: the SAFETY half ("no job has two attempts both treated as current"; a stale attempt
-    cannot move the job) plus enabledness of the progress steps.  Property theorems only (proofs: BatchDB/Attempts.v).
+(** C39 — job lifecycle protocol: SAFETY ("no job has two attempts both treated as current"; a stale attempt cannot move the
+    job; terminal states are absorbing; a waiting job names no attempt) and LIVENESS AS POSSIBILITY + PROGRESS MEASURE
+    ("every job of a committed batch reaches a terminal state", "a cancelled batch eventually completes", "always_run jobs of a
+    cancelled batch still run to completion").  Property theorems only (proofs: BatchDB/Attempts.v, AttemptIdle.v,
+    JobChange.v, LivenessSteps.v, Liveness.v).
 
-    NOT proved here (partial): termination / "a cancelled batch eventually completes" / "always-run jobs still run to
-    completion" as liveness of the real driver loops — that needs fairness of the scheduler, canceller and workers; and
-    the two remaining paths of "terminal states are absorbing" (Commit recomputing jobs, a completing parent releasing
-    children), which are the range and dependency invariants of C04/C05.
+    The liveness theorems (second half of this file) say: from EVERY state reachable by a good history
+      - (no deadlock) while a job of a committed update is unfinished, one of them is Ready, Creating or Running;
+      - (progress) for any such job the message the real loops send next for it (scheduler: schedule_job with a fresh attempt
+        on an active instance; canceller: attempt-less Cancelled completion of a cancelled Ready job; worker: completion of the
+        current attempt with the reported state) is a good step and strictly decreases the measure [mu];
+      - (a finishing schedule always exists) [finish w s] — at most 2 + mu s such messages — is a good continuation after which
+        every job of every committed update is terminal and every batch and job group is complete, for every outcome
+        function [w] of the workers; an always_run job that was waiting ends with an attempt, in the state its worker reported.
+    They do NOT say that the real asyncio loops are fair, that workers report back or that HTTP messages are delivered:
+    fairness of scheduler / canceller / autoscaler loops and "attempts eventually finish" are the hypotheses that turn this
+    possibility into eventuality (the oracle exercises them with a simulated fair driver).  Preemptions / deactivations /
+    the canceller's unschedule are legal environment steps that RAISE the measure (Running -> Ready): with infinitely many of
+    them nothing can be promised, with finitely many the theorems apply to the state after the last one.
 
-    Quantification: ALL legal histories ([Legal.legal_history]) for the reachable-state theorems; ANY state for the
-    per-message theorems. *)
+    Quantification: ALL legal histories ([Legal.legal_history]) for the reachable-state safety theorems; ANY state for the
+    per-message theorems; ALL good histories ([Deps.good_history] = legal + schema-valid client requests) for terminal
+    absorption, the waiting-job theorem and the liveness theorems. *)
 From HailV Require Import Common.Prelude BatchDB.Model BatchDB.Legal BatchDB.Cores BatchDB.Attempts.
+From HailV Require Import BatchDB.JobsWF BatchDB.DepsDef BatchDB.DepsStruct BatchDB.Deps BatchDB.JobChange BatchDB.AttemptIdle BatchDB.LivenessSteps BatchDB.Liveness.
 Open Scope Z_scope.
 
 (** The attempt a job treats as current ([jobs.attempt_id]) is a row of the attempts table with that job's key; a job
@@ -76,7 +90,7 @@ Theorem C39_terminal_row_kept : forall s o b j x,
 Proof. exact terminal_row_kept. Qed.
 Print Assumptions C39_terminal_row_kept.
 
-(** Progress is enabled (no fairness, hence no liveness claim): the scheduler's transaction on a Ready, not cancelled job
+(** Progress is enabled (from ANY state, no invariant): the scheduler's transaction on a Ready, not cancelled job
     with a fresh attempt id and an active instance succeeds and installs that attempt as current; *)
 Theorem C39_schedule_enabled : forall s b j a i x y,
   find_job s b j = Some x -> j_state x = Ready -> is_job_cancelled s x = Some false ->
@@ -121,3 +135,106 @@ Theorem C39_replayed_schedule_reinstalls_ended_attempt :
   map (fun y => (i_cores y, i_free y)) (insts s) = [(4000, 4000)].
 Proof. exact replayed_schedule_reinstalls_ended_attempt. Qed.
 Print Assumptions C39_replayed_schedule_reinstalls_ended_attempt.
+
+(* ------------------------------------------------------------------ safety, completed with the dependency invariant *)
+
+(** Terminal states are absorbing along EVERY good continuation — including commits of later updates and completions of
+    other jobs (the two paths [C39_terminal_row_kept] leaves out): a finished job keeps its row and its state. *)
+Theorem C39_terminal_absorbing : forall ops ext b j x,
+  good_history (ops ++ ext) -> find_job (run ops) b j = Some x -> terminal (j_state x) = true ->
+  exists x', find_job (run (ops ++ ext)) b j = Some x' /\ static x x' /\ j_state x' = j_state x.
+Proof. exact terminal_absorbing. Qed.
+Print Assumptions C39_terminal_absorbing.
+
+(** A job that is Pending or Ready names no current attempt (so, with [C39_current_attempt_exists]: a job names a current
+    attempt iff it is Creating, Running or finished by an attempt).  [C39_replayed_schedule_reinstalls_ended_attempt] is not a
+    counterexample: there the job is Running. *)
+Theorem C39_waiting_job_has_no_attempt : forall ops, good_history ops ->
+  forall x, In x (jobs (run ops)) -> j_state x = Pending \/ j_state x = Ready -> j_attempt x = None.
+Proof. exact waiting_job_has_no_attempt. Qed.
+Print Assumptions C39_waiting_job_has_no_attempt.
+
+(* ------------------------------------------------------------------ liveness: no deadlock, progress measure, finishing schedule *)
+
+(** No deadlock: while some job of a committed update is not terminal, some job of a committed update is Ready, Creating or
+    Running (never are all unfinished jobs Pending). *)
+Theorem C39_no_deadlock : forall ops, good_history ops ->
+  forall x0, In x0 (jobs (run ops)) -> jcommitted (run ops) x0 = true -> terminal (j_state x0) = false ->
+  exists x, In x (jobs (run ops)) /\ jcommitted (run ops) x = true /\
+            (j_state x = Ready \/ j_state x = Creating \/ j_state x = Running).
+Proof. exact no_deadlock. Qed.
+Print Assumptions C39_no_deadlock.
+
+(** Progress, inductive form (any [DInv] state with an active instance): for ANY job of a committed update that is Ready,
+    Creating or Running, the next message of the real loops for it ([op_for]: schedule / canceller completion / worker
+    completion reporting [w batch job]) exists, is a good step, rewrites the job as [next_row] says and strictly decreases the
+    measure [mu] (sum over committed jobs of Pending 4, Ready 3, Creating 2, Running 1, terminal 0). *)
+Theorem C39_progress_step : forall w s x,
+  verdict_ok w -> DInv s -> has_active s -> In x (jobs s) -> jcommitted s x = true ->
+  (j_state x = Ready \/ j_state x = Creating \/ j_state x = Running) ->
+  exists o, op_for w s x = Some o /\ good s o /\ dstep s x (next_row w s x) (fst (step s o)) /\
+            mu (fst (step s o)) < mu s.
+Proof. exact op_for_progress. Qed.
+Print Assumptions C39_progress_step.
+
+(** The same over good histories. *)
+Theorem C39_driver_step_progress : forall w ops x,
+  verdict_ok w -> good_history ops -> has_active (run ops) ->
+  In x (jobs (run ops)) -> jcommitted (run ops) x = true ->
+  (j_state x = Ready \/ j_state x = Creating \/ j_state x = Running) ->
+  exists o, op_for w (run ops) x = Some o /\ good_history (ops ++ [o]) /\ mu (run (ops ++ [o])) < mu (run ops) /\
+            find_job (run (ops ++ [o])) (j_batch x) (j_id x) = Some (next_row w (run ops) x) /\ has_active (run (ops ++ [o])).
+Proof. exact driver_step_progress. Qed.
+Print Assumptions C39_driver_step_progress.
+
+(** The driver function itself: as long as not everything is done it yields a message, which is good, decreases the measure
+    and keeps an instance active. *)
+Theorem C39_drive_progress : forall w s,
+  verdict_ok w -> DInv s -> has_active s -> ~ all_done s ->
+  exists o, drive w s = Some o /\ good s o /\ mu (fst (step s o)) < mu s /\ has_active (fst (step s o)).
+Proof. exact drive_progress. Qed.
+Print Assumptions C39_drive_progress.
+
+(** A finishing schedule always exists: after every good history, for every outcome function [w] of the workers, the computed
+    continuation [finish w (run ops)] (autoscaler messages if no instance is active, then [drive] iterated) is good, has at most
+    2 + mu messages, and leads to a state in which every job of every committed update is terminal and every batch and every
+    job group — cancelled or not — is complete.  Possibility, not eventuality: see the header. *)
+Theorem C39_can_always_finish : forall w ops,
+  verdict_ok w -> good_history ops ->
+  let ext := finish w (run ops) in
+  good_history (ops ++ ext) /\
+  (forall x, In x (jobs (run (ops ++ ext))) -> jcommitted (run (ops ++ ext)) x = true -> terminal (j_state x) = true) /\
+  (forall bt, In bt (batches (run (ops ++ ext))) -> b_running bt = false) /\
+  (forall gr, In gr (groups (run (ops ++ ext))) -> g_running gr = false) /\
+  Z.of_nat (length ext) <= 2 + mu (run ops).
+Proof. exact can_always_finish_bounded. Qed.
+Print Assumptions C39_can_always_finish.
+
+(** Always_run jobs still run: in that continuation a job with always_run set that was Pending or Ready is never finished by
+    the canceller's attempt-less completion — it ends in the state its worker reported, naming an attempt (not NULL) whose row
+    exists — whatever cancellation marks its batch / groups carry and however its parents ended. *)
+Theorem C39_always_run_jobs_run : forall w ops b j x,
+  verdict_ok w -> good_history ops ->
+  find_job (run ops) b j = Some x -> j_always x = true -> jcommitted (run ops) x = true ->
+  (j_state x = Pending \/ j_state x = Ready) ->
+  let s' := run (ops ++ finish w (run ops)) in
+  exists x' a c, find_job s' b j = Some x' /\ j_state x' = w b j /\ j_attempt x' = Some a /\ a <> -1 /\
+                 find_attempt s' b j a = Some c.
+Proof. exact always_run_runs_history. Qed.
+Print Assumptions C39_always_run_jobs_run.
+
+(** Non-vacuity: a good history ending with a Running parent, a Pending child, a Pending always_run grandchild and the whole
+    batch cancelled; the computed continuation (worker report, canceller completion, schedule + completion of the always_run
+    job) finishes it. *)
+Theorem C39_finish_demo :
+  good_history stuck_history /\
+  map job_view (jobs (run stuck_history)) = [(1, Running, false, Some 1); (2, Pending, false, None); (3, Pending, true, None)] /\
+  group_cancelled (run stuck_history) 1 1 = true /\
+  finish all_succeed (run stuck_history) =
+    [MarkComplete 1 1 1 1 Success None (Some 0) 0; MarkComplete 1 2 (-1) (-1) Cancelled None None 0;
+     ScheduleJob 1 3 2 1; MarkComplete 1 3 2 1 Success None (Some 0) 0] /\
+  let s := run (stuck_history ++ finish all_succeed (run stuck_history)) in
+  map job_view (jobs s) = [(1, Success, false, Some 1); (2, Cancelled, false, None); (3, Success, true, Some 2)] /\
+  map b_running (batches s) = [false].
+Proof. exact finish_demo. Qed.
+Print Assumptions C39_finish_demo.
